@@ -37,6 +37,12 @@ pub(crate) fn append_trailing_comment_suffix(
     let Some(comment_node) = find_inline_trailing_comment_node(node) else {
         return;
     };
+    // A comment that spans lines is never treated as an inline trailing comment (see
+    // `extract_trailing_comment_rendered` and `layout_comment_is_inline_trailing`): the block loop
+    // renders it as a standalone comment, so emitting it here as well would duplicate it.
+    if comment_node.text().contains_char('\n') {
+        return;
+    }
     let Some(comment) = LuaComment::cast(comment_node) else {
         return;
     };
